@@ -20,8 +20,8 @@ type TState struct {
 	// StrictKey identifies (definition, input contents, dependency output contents).
 	// LooseKey additionally includes the keys of output-less dependencies (grog's documented
 	// design: targets without outputs expose their own change behaviour as an output).
-	StrictKey string
-	LooseKey  string
+	StrictKey  string
+	LooseKey   string
 	DirectDeps []string // resolved target labels
 }
 
